@@ -160,19 +160,17 @@ impl PartialEq for Keyed32 {
 /// has no size in it.
 fn sub_huge(input: &[u8], st: &mut Stats) -> R {
     let mut cs = Cs::new(input);
-    let n0 = match cs.below(4) {
-        0 => 65_530 + cs.below(16),
-        1 => 131_066 + cs.below(12),
-        2 => 65_537 + cs.below(5_000),
-        _ => 66_000 + cs.below(74_000),
-    };
-    let period = match cs.below(5) {
+    // one case in twenty-four stores more than 2^24 values (a token is one word: an implementation
+    // may pack something else into it)
+    let mega = cs.below(24) == 0;
+    let n0 = if mega { (1 << 24) + 3 + cs.below(60) } else { cs.big_count() };
+    let period = if mega { 251 } else { match cs.below(5) {
         0 => 250,
         1 => 65_536,
         2 => 65_535 + cs.below(3),
         3 => 66_000 + cs.below(4_000),
         _ => 1_000 + cs.below(64_000),
-    } as u32;
+    } } as u32;
     let mut s: Storage<Keyed32> = Storage::new();
     let mut model: Vec<Keyed32> = Vec::with_capacity(n0 + 256);
     let mut first_of: std::collections::HashMap<u32, usize> = Default::default();
@@ -225,7 +223,7 @@ fn sub_huge(input: &[u8], st: &mut Stats) -> R {
                 tokens.push(t);
             }
         }
-        for i in [0usize, 1, 65_534, 65_535, 65_536, 65_537, 131_071, 131_072, tokens.len() - 1] {
+        for i in [0usize, 1, 65_534, 65_535, 65_536, 65_537, 131_071, 131_072, (1 << 24) - 1, 1 << 24, (1 << 24) + 1, tokens.len() - 1] {
             if let Some(tk) = tokens.get(i) {
                 let got = no_panic("Storage index", || s[*tk].clone())?;
                 if got.key != model[i].key || got.payload != model[i].payload {
